@@ -1606,3 +1606,183 @@ Proof.
     destruct (memb ix (r_legs r)); reflexivity. }
   rewrite G. cbn [c_sd set_where set_nsl]. apply zd_keys_del_length. apply zd_get_in_keys. congruence.
 Qed.
+
+(* ---- best ---- *)
+Lemma zzz_lt_trans a b c : zzz_lt a b = true -> zzz_lt b c = true -> zzz_lt a c = true.
+Proof. destruct a as [a1 [a2 a3]], b as [b1 [b2 b3]], c as [c1 [c2 c3]]. unfold zzz_lt. lia. Qed.
+Lemma zzz_lt_asym a b : zzz_lt a b = true -> zzz_lt b a = false.
+Proof. destruct a as [a1 [a2 a3]], b as [b1 [b2 b3]]. unfold zzz_lt. lia. Qed.
+
+Lemma min_by_in {A} (key : A -> Z * (Z * Z)) l : forall cur, In (min_by key l cur) (cur :: l).
+Proof.
+  induction l as [|x l IH]; intros cur; cbn [min_by]; [left; reflexivity|].
+  destruct (zzz_lt (key x) (key cur)).
+  - right. apply IH.
+  - destruct (IH cur) as [H|H]; [left; exact H|right; right; exact H].
+Qed.
+
+Lemma min_by_le_cur {A} (key : A -> Z * (Z * Z)) l : forall cur,
+  zzz_lt (key cur) (key (min_by key l cur)) = false.
+Proof.
+  induction l as [|x l IH]; intros cur; cbn [min_by].
+  - destruct (zzz_lt (key cur) (key cur)) eqn:E; [|reflexivity]. pose proof (zzz_lt_asym _ _ E). congruence.
+  - destruct (zzz_lt (key x) (key cur)) eqn:E; [|apply IH].
+    destruct (zzz_lt (key cur) (key (min_by key l x))) eqn:E2; [|reflexivity].
+    pose proof (zzz_lt_trans _ _ _ E E2) as E3. rewrite IH in E3. discriminate.
+Qed.
+
+Lemma min_by_minimal {A} (key : A -> Z * (Z * Z)) l : forall cur x, In x (cur :: l) ->
+  zzz_lt (key x) (key (min_by key l cur)) = false.
+Proof.
+  induction l as [|y l IH]; intros cur x Hx; cbn [min_by].
+  - destruct Hx as [<-|[]]. apply (min_by_le_cur key [] cur).
+  - destruct (zzz_lt (key y) (key cur)) eqn:E.
+    + destruct Hx as [<-|Hx]; [|apply IH, Hx].
+      destruct (zzz_lt (key cur) (key (min_by key l y))) eqn:E2; [|reflexivity].
+      pose proof (zzz_lt_trans _ _ _ E E2) as E3. rewrite (min_by_le_cur key l y) in E3. discriminate.
+    + destruct Hx as [<-|[<-|Hx]].
+      * apply (IH cur cur). left; reflexivity.
+      * destruct (zzz_lt (key y) (key (min_by key l cur))) eqn:E2; [|reflexivity].
+        assert (E4 : zzz_lt (key cur) (key (min_by key l cur)) = false) by apply min_by_le_cur.
+        (* y < m and not (y < cur) and not (cur < m): impossible only through totality; use the order facts *)
+        destruct (key y) as [a1 [a2 a3]], (key cur) as [b1 [b2 b3]], (key (min_by key l cur)) as [c1 [c2 c3]].
+        unfold zzz_lt in *. lia.
+      * apply (IH cur x). right; exact Hx.
+Qed.
+
+(* the targets as propositions on a cost object: ALL specified targets *)
+Definition targets_hold (fd : finder) (c : costs) : Prop :=
+  (forall ts, f_tsize fd = Some ts -> size_le c ts = true) /\
+  (forall t, f_tover fd = Some t -> over_gt c t = false) /\
+  (forall tsl, f_tslices fd = Some tsl -> slices_ge c tsl = true).
+
+Lemma valid_targets fd e : valid fd e = true -> targets_hold fd (snd e).
+Proof.
+  unfold valid. intros H. apply andb_true_iff in H. destruct H as [H H3]. apply andb_true_iff in H. destruct H as [H1 H2].
+  repeat split.
+  - intros ts E. rewrite E in H1. exact H1.
+  - intros t E. rewrite E in H2. destruct (over_gt (snd e) t); [discriminate|reflexivity].
+  - intros tsl E. rewrite E in H3. exact H3.
+Qed.
+
+Theorem best_spec fd ch e : best fd ch = Ret e ->
+  In e ch /\ targets_hold fd (snd e) /\
+  forall e', In e' ch -> valid fd e' = true -> zzz_lt (best_scorer fd e') (best_scorer fd e) = false.
+Proof.
+  unfold best. destruct (filter (valid fd) ch) as [|e0 es] eqn:Ef; [discriminate|]. intros [= <-].
+  pose proof (min_by_in (best_scorer fd) es e0) as Hin. rewrite <- Ef in Hin. apply filter_In in Hin.
+  split; [apply Hin|]. split; [apply valid_targets, Hin|].
+  intros e' He' Hv. apply min_by_minimal. rewrite <- Ef. apply filter_In. split; assumption.
+Qed.
+
+(* ---- search ---- *)
+Lemma search_loop_spec fd : forall oracles ch ch' rs, cache_ok fd ch ->
+  search_loop fd oracles ch = Ret (ch', rs) ->
+  cache_ok fd ch' /\ Forall (fun r => entry_ok fd r /\ trial_post0 fd (fst r) (snd r)) rs.
+Proof.
+  induction oracles as [|o os IH]; intros ch ch' rs Hch H; cbn [search_loop] in H.
+  - injection H as <- <-. split; [exact Hch|constructor].
+  - destruct (trial fd o ch) as [[ch1 [k c]]| |] eqn:Et; try discriminate.
+    destruct (trial_spec fd o ch ch1 k c Hch Et) as (A & B & C & _).
+    destruct (search_loop fd os ch1) as [[ch2 rs2]| |] eqn:Es; try discriminate.
+    injection H as <- <-. destruct (IH ch1 ch2 rs2 A Es) as (A2 & F2).
+    split; [exact A2|]. constructor; [split; assumption|exact F2].
+Qed.
+
+Lemma cache0_ok fd : cache_ok fd (cache0 fd).
+Proof.
+  unfold cache_ok, cache0. constructor; [|constructor]. exists []. cbn. repeat split; tauto.
+Qed.
+
+(* whatever `search` returns is a slicing reached by removals from the incoming
+   cost object, avoids every forbidden index, and satisfies ALL requested targets *)
+Theorem search_spec fd oracles k c : search fd oracles = Ret (k, c) ->
+  entry_ok fd (k, c) /\ targets_hold fd c.
+Proof.
+  unfold search. destruct (search_loop fd oracles (cache0 fd)) as [[ch rs]| |] eqn:Es; try discriminate.
+  intros Hb. destruct (search_loop_spec fd oracles _ ch rs (cache0_ok fd) Es) as (Hch & _).
+  destruct (best_spec fd ch (k, c) Hb) as (Hin & Ht & _).
+  split; [|exact Ht]. unfold cache_ok in Hch. rewrite Forall_forall in Hch. apply Hch, Hin.
+Qed.
+
+(* ---- the forbidden sets ---- *)
+Lemma forbidden_false j outp sd : In j outp -> In j (forbidden_of AoFalse outp sd).
+Proof. intros H. exact H. Qed.
+Lemma forbidden_only j outp sd : In j (zd_keys sd) -> ~ In j outp -> In j (forbidden_of AoOnly outp sd).
+Proof.
+  intros Hk Ho. unfold forbidden_of. apply filter_In. split; [exact Hk|].
+  apply memb_false in Ho. rewrite Ho. reflexivity.
+Qed.
+
+(* ---- C07 end to end, on the model: SliceFinder(tree).search() ---- *)
+Theorem search_prediction_real n sl0 t ao ts tov tsl oracles k c :
+  tree_ok n sl0 t -> sd_pos (szd n) -> NoDup (zd_keys (szd n)) ->
+  search (finder_of_tree n sl0 t ao ts tov tsl) oracles = Ret (k, c) ->
+  exists xs, (forall j, In j k <-> In j xs) /\ NoDup xs /\
+    let sl := sl0 ++ slice_all xs in
+    (* the prediction is real *)
+    c_nsl c * multiplicity n sl0 = multiplicity n sl /\
+    cc_total_flops c * multiplicity n sl0 = total_flops n sl t /\
+    match cc_size c with Some s => s | None => 0 end = max_size n sl t /\
+    c_orig c = sum_flops n sl0 t /\
+    (* the targets hold on it *)
+    targets_hold (finder_of_tree n sl0 t ao ts tov tsl) c /\
+    (* forbidden indices are never chosen *)
+    (forall j, In j xs -> ~ In j (removed sl0) /\ In j (zd_keys (szd n)) /\
+       (ao = AoFalse -> ~ In j (output n)) /\ (ao = AoOnly -> In j (output n))).
+Proof.
+  intros Hok Hpos HND Hs.
+  destruct (search_spec _ oracles k c Hs) as ((xs & Hseq & Hk & Hforb) & Ht).
+  cbn [fst snd f_cost0 finder_of_tree f_forbidden] in *.
+  destruct (costs_remove_eq_tree_remove n sl0 t Hok Hpos HND xs c Hseq) as (T & I & N & O & R & ND & Hkeys).
+  destruct (prediction_is_real n sl0 t xs c (fun j => sd_pos_zget _ j Hpos) I T N) as (P1 & P2 & _ & P4).
+  exists xs. split; [exact Hk|]. split; [exact ND|]. cbn zeta.
+  split; [exact P1|]. split; [exact P2|]. split; [exact P4|]. split; [exact O|]. split; [exact Ht|].
+  intros j Hj. split; [apply (removed_never_again n sl0 t Hok Hpos HND xs c Hseq j Hj)|].
+  split; [apply Hkeys, Hj|].
+  assert (Esd : c_sd (costs_of_tree n sl0 t) = szd n).
+  { apply (cc_init_inv (tree_rows n sl0 t) (szd n) (tree_rows_ok n sl0 t Hok) Hpos HND). }
+  split.
+  - intros -> Ho. apply (Hforb j Hj). apply forbidden_false, Ho.
+  - intros ->. destruct (in_dec Nat.eq_dec j (output n)) as [Hin|Hnin]; [exact Hin|].
+    exfalso. apply (Hforb j Hj). apply forbidden_only; [rewrite Esd; apply Hkeys, Hj|exact Hnin].
+Qed.
+
+(* ---- corollaries in the form used by Props/C07.v ---- *)
+Theorem reductions_are_definitional n sl0 t : tree_ok n sl0 t -> sd_pos (szd n) -> NoDup (zd_keys (szd n)) ->
+  forall xs c, remove_seq xs (costs_of_tree n sl0 t) = Some c ->
+  let tab := tree_rows n (sl0 ++ slice_all xs) t in
+  c_flops c = sum_flops n (sl0 ++ slice_all xs) t /\
+  forall j, In j (zd_keys (c_sd c)) ->
+    zd_get0 j (c_fred c) = fred_def (c_sd c) tab j /\
+    zd_get0 j (c_wred c) = wred_def (c_sd c) tab j /\
+    (forall i, In i (wh_get0 j (c_where c)) <-> involves tab j i) /\
+    zget j (c_sd c) = zget j (szd n).
+Proof.
+  intros Hok Hpos HND xs c Hseq. cbn zeta.
+  destruct (costs_remove_eq_tree_remove n sl0 t Hok Hpos HND xs c Hseq) as (T & (_ & _ & _ & Dfl & _ & _ & Dj) & _ & _ & R & _).
+  rewrite T in *. split; [rewrite Dfl; apply tree_rows_flops|].
+  intros j Hj. destruct (Dj j Hj) as (E1 & E2 & _ & E4).
+  split; [exact E1|]. split; [exact E2|]. split; [exact E4|].
+  apply zd_get_in_keys in Hj. specialize (R j). destruct (memb j xs); [congruence|].
+  destruct (zd_get j (c_sd c)) as [v|] eqn:E; [|congruence].
+  rewrite (zd_get_zget j _ v E). symmetry. apply zd_get_zget. congruence.
+Qed.
+
+Theorem trial_avoids_forbidden fd oracle ch ch' k c : cache_ok fd ch ->
+  trial fd oracle ch = Ret (ch', (k, c)) ->
+  (forall j, In j k -> ~ In j (f_forbidden fd)) /\
+  (forall e, In e ch' -> forall j, In j (fst e) -> ~ In j (f_forbidden fd)).
+Proof.
+  intros Hch Hret. destruct (trial_spec fd oracle ch ch' k c Hch Hret) as (A & (xs & _ & Hk & Hf) & _).
+  cbn [fst] in Hk. split; [intros j Hj; apply Hf, Hk, Hj|].
+  intros e He j Hj. unfold cache_ok in A. rewrite Forall_forall in A.
+  destruct (A e He) as (ys & _ & Hk2 & Hf2). apply Hf2, Hk2, Hj.
+Qed.
+
+Theorem trial_meets_target fd oracle ch ch' k c : cache_ok fd ch ->
+  trial fd oracle ch = Ret (ch', (k, c)) ->
+  trial_post0 fd k c /\ (k <> [] -> over_ok fd c).
+Proof.
+  intros Hch Hret. destruct (trial_spec fd oracle ch ch' k c Hch Hret) as (_ & _ & C & D & _). split; assumption.
+Qed.
